@@ -71,6 +71,19 @@ func TestReadEOFValue(t *testing.T) {
 	}).Test(t)
 }
 
+func TestReadParseErrorEOFValue(t *testing.T) {
+	(&sliptest.Function{
+		Source: `(read (make-string-input-stream "a ) b") nil 'eof-error)`,
+		Expect: `a`,
+	}).Test(t)
+	(&sliptest.Function{
+		Source: `(let ((ss (make-string-input-stream "a ) b")))
+                  (read ss nil 'eof-error)
+                  (read ss nil 'eof-error))`,
+		PanicType: slip.ParseErrorSymbol,
+	}).Test(t)
+}
+
 func TestReadEmptyEOFValue(t *testing.T) {
 	(&sliptest.Function{
 		Source: `(read (make-string-input-stream "  ") nil 'eof-error)`,
